@@ -24,9 +24,16 @@ func vC13(topo, k int, symbolic bool, vlans ...uint16) {
 	schedulerplugin.VerifC13PreHeld = nondetChoice(k + 1) // 0: nothing held; i: the IP of the i-th requested range is already the pod's
 	schedulerplugin.VerifC13Restart = schedulerplugin.VerifC13PreHeld > 0 && nondetBool()
 	schedulerplugin.VerifC13Reconfigured = nondetBool() // a live reconfiguration (other VLAN ids before) preceded the scheduling
+	// a reload (former VLAN ids -> the configuration in force) inside a window of a first Bind attempt that fails at its
+	// binding call (0 = no such attempt); only combined with a pod that holds nothing yet
+	schedulerplugin.VerifC13ReloadInBind = 0
+	if schedulerplugin.VerifC13PreHeld == 0 && !schedulerplugin.VerifC13Reconfigured && nondetBool() {
+		schedulerplugin.VerifC13ReloadInBind = 1 + nondetChoice(8)
+	}
 	schedulerplugin.VerifC13StaleInfos = nondetBool() // the pod's incoming annotation already lists ipinfos of an earlier life
 	defer func() {
 		schedulerplugin.VerifC13Restart, schedulerplugin.VerifC13Reconfigured, schedulerplugin.VerifC13StaleInfos = false, false, false
+		schedulerplugin.VerifC13ReloadInBind = 0
 	}()
 	b := schedulerplugin.VerifBindForC13(topo, k, vlans...)
 	schedulerplugin.VerifC13PreHeld = 0
@@ -73,7 +80,7 @@ func vC13(topo, k int, symbolic bool, vlans ...uint16) {
 	_ = cniutil.CmdDel(vReq("verif-c13", dir).CmdArgs, -1)
 }
 
-// BOUND: topologies {0,1,2,3} (masks /24 and /16, two gateways, VLANs 2 and 3 -> overridden); k = 0..3 requested single-address ranges taken alternately from both ends of the address list (1..3 IPs per pod, from one or two pools), optionally one of them already held by the pod before it is scheduled, optionally with a restart of galaxy-ipam (tables rebuilt from the store) in between; optionally galaxy-ipam ran with other VLAN ids (9, 11) for the same pools before and was reconfigured live; optionally the pod's incoming args annotation already carries common.ipinfos of an earlier life (another address, VLAN 7); mask / gateway / VLAN are compared with the pool definitions of the configuration, not with the tables; two VLAN ids (one per pool) symbolic over all 2^16 values each; network selection {default list, ENI network}
+// BOUND: topologies {0,1,2,3} (masks /24 and /16, two gateways, VLANs 2 and 3 -> overridden); k = 0..3 requested single-address ranges taken alternately from both ends of the address list (1..3 IPs per pod, from one or two pools), optionally one of them already held by the pod before it is scheduled, optionally with a restart of galaxy-ipam (tables rebuilt from the store) in between; optionally galaxy-ipam ran with other VLAN ids (9, 11) for the same pools before and was reconfigured live; optionally a first Bind attempt under the former configuration fails at its binding call while the reload to the configuration in force runs inside one of its API-server / store call windows (symbolic window 1..8), and the retried Bind must report the configuration in force; optionally the pod's incoming args annotation already carries common.ipinfos of an earlier life (another address, VLAN 7); mask / gateway / VLAN are compared with the pool definitions of the configuration, not with the tables; two VLAN ids (one per pool) symbolic over all 2^16 values each; network selection {default list, ENI network}
 func VerifC13_q_endToEndSymbolicVlan() {
 	topo := nondetChoice(4)
 	k := nondetChoice(4)
